@@ -21,6 +21,24 @@ func main() {
 		cmdVerify(os.Args[2:])
 	case "check":
 		cmdCheck(os.Args[2:])
+	case "bindings":
+		// record the names contracts may refer to, from the tree as it is now
+		repo, out := "/repo", "/verif/bindings.json"
+		if len(os.Args) > 2 {
+			repo = os.Args[2]
+		}
+		if len(os.Args) > 3 {
+			out = os.Args[3]
+		}
+		e, err := LoadEngine(repo)
+		if err != nil {
+			fmt.Fprintln(os.Stderr, "load:", err)
+			os.Exit(2)
+		}
+		if err := e.writeBindings(out); err != nil {
+			fmt.Fprintln(os.Stderr, err)
+			os.Exit(2)
+		}
 	default:
 		fmt.Fprintln(os.Stderr, "unknown command")
 		os.Exit(2)
